@@ -608,6 +608,35 @@ def make_transpilers():
             api.PyToPy.__init__(self)
             self._c10_init()
 
+        def get_extra_locals(self):
+            first = self._extra_locals is None
+            r = api.PyToPy.get_extra_locals(self)
+            if first:
+                ag = r['ag__']
+                tr_self = self
+                self.hits = []
+
+                def wrap(name, orig):
+                    def w(*a, **k):
+                        if name == 'converted_call':
+                            sc = k.get('caller_fn_scope', a[3] if len(a) > 3 else None)
+                            op = k.get('options', a[4] if len(a) > 4 else None)
+                            co = op if op is not None else getattr(sc, 'callopts', None)
+                            t = None
+                            if co is not None:
+                                t = (co.recursive, co.user_requested, co.internal_convert_user_code,
+                                     tuple(sorted(f.name for f in co.optional_features)))
+                            tr_self.hits.append((name, getattr(a[0], '__name__', type(a[0]).__name__), t))
+                        else:
+                            tr_self.hits.append((name,))
+                        return orig(*a, **k)
+                    return w
+                for name in ('converted_call', 'if_stmt', 'while_stmt', 'for_stmt'):
+                    orig = getattr(ag, name, None)
+                    if orig is not None:
+                        setattr(ag, name, wrap(name, orig))
+            return r
+
         def transform_ast(self, node, ctx):
             u = ctx.user
             key = (getattr(u, 'c10_cls', None), getattr(u, 'c10_key', None))
@@ -1079,7 +1108,7 @@ def _check(run, tmp):
                 searched += 'did not reproduce on the real code'
     # verdict
     seen = set()
-    order = {'forced-schedule-min': -1, 'forced-schedule': 0, 'overlap-probe': 1, 'preemption-sweep': 1, 'sequential-history': 2, 'redefinition': 2}
+    order = {'forced-schedule-min': -1, 'option-field-history': 2, 'forced-schedule': 0, 'overlap-probe': 1, 'preemption-sweep': 1, 'sequential-history': 2, 'redefinition': 2}
     failures.sort(key=lambda f: order.get(f[1].get('kind'), 5))
     for title, rep, cls in failures:
         norm = re.sub(r'\d+', 'N', title)
@@ -1288,6 +1317,7 @@ def oracle(run, rnd, tmp, TT, MT, thorough):
                                        note='non-deterministic: the replay repeats the round up to 200 times'), None))
     # -- the real malt transpiler
     failures += malt_oracle(run, rnd, tmp, MT, thorough)
+    failures += field_histories(run, tmp, MT, thorough)
     world.clear()
     return failures
 
@@ -1330,6 +1360,150 @@ def sequential_histories(rnd, TT, world, mk_ctx, n):
                     list(hist)))
                 break
     return bad
+
+
+FIELD_SRC = '''from malt.core import ag_ctx
+G = 100
+def helper(v):
+    if v > 2:
+        v = v + 1
+    return v
+def make(c):
+    def f(x, d=5):
+        st = ag_ctx.control_status_ctx().status.name
+        s = 0
+        i = 0
+        while i < x:
+            if i %% 2 == 0:
+                s = s + c
+            else:
+                s = s + G
+            i = i + 1
+        return (s + helper(x), G, d, %(ver)d, st)
+    return f
+'''
+
+
+def field_variants(Feature):
+    """Pairs of option values differing in exactly ONE field: (field, kwargs A, kwargs B)."""
+    bases = [dict(recursive=True, user_requested=True, internal_convert_user_code=True, optional_features=None),
+             dict(recursive=False, user_requested=False, internal_convert_user_code=True,
+                  optional_features=(Feature.LISTS,))]
+    out = []
+    for b in bases:
+        for fld in ('recursive', 'user_requested', 'internal_convert_user_code'):
+            o = dict(b)
+            o[fld] = not b[fld]
+            out.append((fld, b, o))
+        for other in (None, (Feature.LISTS,), Feature.EQUALITY_OPERATORS, (Feature.LISTS, Feature.BUILTIN_FUNCTIONS)):
+            if other != b['optional_features']:
+                o = dict(b)
+                o['optional_features'] = other
+                out.append(('optional_features', b, o))
+    return out
+
+
+def opt_repr(kw):
+    f = kw['optional_features']
+    fs = 'None' if f is None else ('(%s)' % ', '.join(x.name for x in f) if isinstance(f, tuple) else f.name)
+    return 'ConversionOptions(recursive=%r, user_requested=%r, internal_convert_user_code=%r, optional_features=%s)' % (
+        kw['recursive'], kw['user_requested'], kw['internal_convert_user_code'], fs)
+
+
+def field_observe(tr, res):
+    """Generated source text + run-time behaviour (value, conversion status seen
+    inside, overloaded-operator hits with the call options they were given)."""
+    fn, module, _ = res
+    try:
+        with open(module.__file__) as f:
+            src = f.read()
+    except OSError:
+        src = '<no source>'
+    tr.hits = []
+    try:
+        val = repr(fn(4))
+    except Exception as ex:   # noqa
+        val = 'raised %s: %s' % (type(ex).__name__, str(ex)[:120])
+    hits = list(tr.hits)
+    tr.hits = []
+    return {'source': src, 'value': val, 'operator_hits': hits}
+
+
+def run_field_history(MT, world, hist, converter):
+    """hist: list of option kwargs, all for the same function object.  Every
+    answer of ONE transpiler is compared with a fresh transpiler's answer to
+    the same single request.  -> None or a failure description"""
+    class PC(converter.ProgramContext):
+        pass
+    fn = world.fn(0, 1)
+    tr = MT()
+    tr.get_extra_locals()
+    for idx, kw in enumerate(hist):
+        got = field_observe(tr, tr.transform_function(fn, PC(options=converter.ConversionOptions(**kw))))
+        fresh = MT()
+        fresh.get_extra_locals()
+        want = field_observe(fresh, fresh.transform_function(fn, PC(options=converter.ConversionOptions(**kw))))
+        diffs = [k for k in ('source', 'value', 'operator_hits') if got[k] != want[k]]
+        if diffs:
+            d = {'request_index': idx, 'differs_in': diffs}
+            if 'source' in diffs:
+                gl, wl = got['source'].split('\n'), want['source'].split('\n')
+                dl = [(a.strip(), b.strip()) for a, b in zip(gl, wl) if a != b][:3]
+                d['source_lines(cache, fresh)'] = dl
+            if 'value' in diffs:
+                d['value(cache, fresh)'] = (got['value'], want['value'])
+            if 'operator_hits' in diffs:
+                d['operator_hits(cache, fresh)'] = (repr(got['operator_hits'])[:400], repr(want['operator_hits'])[:400])
+            return d
+    return None
+
+
+def field_histories(run, tmp, MT, thorough):
+    """The same function object requested under option values that differ in
+    exactly one field, in both orders (and with a repeat)."""
+    from malt.core import converter
+    failures = []
+    world = World(tmp, src=FIELD_SRC, tag='fld')
+    variants = field_variants(converter.Feature)
+    if not thorough:
+        variants = [v for v in variants if v[1]['recursive']]      # first base only
+    n = 0
+    for fld, a, b in variants:
+        for hist in ([a, b], [b, a], [a, b, a]):
+            n += 1
+            try:
+                d = run_field_history(MT, world, hist, converter)
+            except Exception as ex:   # noqa
+                d = {'raised': '%s: %s' % (type(ex).__name__, str(ex)[:300]), 'traceback': traceback.format_exc()[-1200:]}
+            if d:
+                what = 'a request is served the conversion made for options that differ only in %s' % fld
+                rep = {'what': what, 'kind': 'option-field-history', 'field': fld,
+                       'history': [opt_repr(k) for k in hist], 'history_kwargs': [enc_kw(k) for k in hist],
+                       'function': 'f = make(11) of FIELD_SRC (tools/props/c10.py), same function object in every request',
+                       'detail': 'request #%s of the history differs from a fresh transpiler converting the same function '
+                                 'under the same options' % d.get('request_index')}
+                rep.update(d)
+                failures.append((what, rep, None))
+                break
+    run.count(n)
+    run.extra['option_field_histories'] = n
+    world.clear()
+    return failures
+
+
+def enc_kw(kw):
+    f = kw['optional_features']
+    k = dict(kw)
+    k['optional_features'] = None if f is None else ([x.name for x in f] if isinstance(f, tuple) else f.name)
+    return k
+
+
+def dec_kw(k, Feature):
+    f = k['optional_features']
+    k = dict(k)
+    k['optional_features'] = None if f is None else (tuple(Feature[x] for x in f) if isinstance(f, list) else Feature[f])
+    return k
+
 
 
 def malt_oracle(run, rnd, tmp, MT, thorough):
@@ -1519,6 +1693,12 @@ def replay(path):
                 rc = 1
             print('REPRODUCED' if rc else 'not reproduced')
             return rc
+        if kind == 'option-field-history':
+            from malt.core import converter
+            hist = [dec_kw(k, converter.Feature) for k in rep['history_kwargs']]
+            d = run_field_history(MT, World(tmp, src=FIELD_SRC, tag='fld'), hist, converter)
+            print('REPRODUCED: %s' % json.dumps(d, default=str)[:1500] if d else 'not reproduced')
+            return 1 if d else 0
         if kind == 'free-running':
             for attempt in range(200):
                 rnd = random.Random(attempt)
